@@ -456,6 +456,14 @@ def run(ctx):
     ctx.run_given('block', st.fixed_dictionaries({'kind': st.just('block'), 'block': txgen.block_cases()}),
                   prop_block, ctx.scale(40, 600))
 
+    if ctx.thorough():
+        # coverage-guided campaigns with the round-trip oracle inside the target (atheris / libFuzzer)
+        from vlib import fuzz
+        from fuzz import t_rawtx
+        fuzz.run_fuzz(ctx, 'tx', runs=120000, max_len=700)
+        fuzz.run_fuzz(ctx, 'rawtx', runs=60000, max_len=1200,
+                      with_seed_corpus=t_rawtx.seed_corpus() if ctx.shard % 2 == 0 else None)
+
     from props import txplan
 
     def prop_api(case):
